@@ -78,10 +78,10 @@ def _expandable(fn, call, is_method_call):
     if any(d not in ("staticmethod", "classmethod") for d in deco):
         return None
     for n in ast.walk(fn):
-        if isinstance(n, (ast.Yield, ast.YieldFrom, ast.Await, ast.Global, ast.Nonlocal, ast.AsyncFunctionDef, ast.ClassDef)):
+        if isinstance(n, (ast.Await, ast.Global, ast.Nonlocal, ast.AsyncFunctionDef, ast.ClassDef)):
             return None
-        if n is not fn and isinstance(n, ast.FunctionDef):
-            return None
+    if any(isinstance(n, (ast.Yield, ast.YieldFrom)) for n in _own_nodes(fn)):
+        return None
     a = fn.args
     if a.vararg or a.kwarg or any(isinstance(x, ast.Starred) for x in call.args) or any(k.arg is None for k in call.keywords):
         return None
@@ -120,6 +120,17 @@ def _expandable(fn, call, is_method_call):
     return [(p_, bind[p_]) for p_ in first + order]
 
 
+def _own_nodes(fn):
+    """nodes of fn's own body, not of the functions and lambdas defined inside it"""
+    stack = list(fn.body)
+    while stack:
+        n = stack.pop()
+        yield n
+        if isinstance(n, (ast.FunctionDef, ast.AsyncFunctionDef, ast.Lambda, ast.ClassDef)):
+            continue
+        stack.extend(ast.iter_child_nodes(n))
+
+
 class _Renamer(ast.NodeTransformer):
     def __init__(self, ren):
         self.ren = ren
@@ -137,6 +148,22 @@ class _Renamer(ast.NodeTransformer):
             n.args.defaults[i] = self.visit(d)
         return n
 
+    def visit_FunctionDef(self, n):
+        shadow = {x.arg for x in n.args.args + n.args.posonlyargs + n.args.kwonlyargs}
+        if n.args.vararg:
+            shadow.add(n.args.vararg.arg)
+        if n.args.kwarg:
+            shadow.add(n.args.kwarg.arg)
+        for x in _own_nodes(n):
+            if isinstance(x, ast.Name) and isinstance(x.ctx, (ast.Store, ast.Del)):
+                shadow.add(x.id)
+        inner = _Renamer({k: v for k, v in self.ren.items() if k not in shadow})
+        n.body = [inner.visit(st) for st in n.body]
+        n.args.defaults = [self.visit(d) for d in n.args.defaults]
+        if n.name in self.ren:
+            n.name = self.ren[n.name]
+        return n
+
     def visit_ExceptHandler(self, n):
         if n.name and n.name in self.ren:
             n.name = self.ren[n.name]
@@ -145,11 +172,15 @@ class _Renamer(ast.NodeTransformer):
 
 def _locals_of(fn):
     names = {x.arg for x in fn.args.posonlyargs + fn.args.args + fn.args.kwonlyargs}
-    for n in ast.walk(fn):
+    for n in _own_nodes(fn):
         if isinstance(n, ast.Name) and isinstance(n.ctx, (ast.Store, ast.Del)):
             names.add(n.id)
         elif isinstance(n, ast.ExceptHandler) and n.name:
             names.add(n.name)
+        elif isinstance(n, (ast.FunctionDef, ast.AsyncFunctionDef)):
+            names.add(n.name)
+        elif isinstance(n, (ast.ListComp, ast.SetComp, ast.DictComp, ast.GeneratorExp)):
+            pass
     return names
 
 
@@ -167,6 +198,9 @@ class Expander:
                 return [ast.copy_location(ast.Assign([ast.Name(ret, ast.Store())], val, lineno=n.lineno), n), ast.copy_location(InlineReturn(None, ret), n)]
 
             def visit_Lambda(s, n):
+                return n
+
+            def visit_FunctionDef(s, n):
                 return n
         out = []
         for st in stmts:
